@@ -1374,12 +1374,65 @@ def _client(ctx, res, n, salt, big=False):
     return res
 
 
+def _relpath_probe(ctx, res):
+    """Relative temporary locations + a change of directory + a killed client (harness/c20_relpath.py); oracle only."""
+    import signal
+    import tempfile
+
+    def gone(pid):
+        try:
+            with open(f"/proc/{pid}/stat") as f:
+                return f.read().rsplit(")", 1)[1].split()[0] == "Z"
+        except OSError:
+            return True
+
+    script = str(Path(__file__).resolve().parent.parent / "c20_relpath.py")
+    for how in ("env", "arg"):
+        base = tempfile.mkdtemp(prefix="c20rel-", dir=str(ctx.scratch))
+        os.makedirs(os.path.join(base, "A"))
+        os.makedirs(os.path.join(base, "B"))
+        env = dict(os.environ, PYTHONPATH=str(core.REPO))
+        env.pop("JOBLIB_TEMP_FOLDER", None)
+        if how == "env":
+            env["JOBLIB_TEMP_FOLDER"] = "scratch"
+        case = dict(kind="relative-location-probe", how=how)
+        p = subprocess.Popen([core.PY, "-B", script, base, how], stdout=subprocess.PIPE, stderr=subprocess.DEVNULL, text=True, env=env)
+        try:
+            line = p.stdout.readline().strip()
+            if not line.isdigit():
+                res.fail("client:relative-location:client-failed", case, line[:200])
+                continue
+            tracker = int(line)
+            registered = p.stdout.readline().strip()
+            os.kill(p.pid, signal.SIGKILL)
+            p.wait()
+            t0 = time.time()
+            while time.time() - t0 < 30 and not gone(tracker):
+                time.sleep(0.05)
+            left = [os.path.join(r, d) for r, ds, _ in os.walk(base) for d in ds if d.startswith("joblib_memmapping_folder_")]
+            res.evaluations += 1
+            res.count("relative-location-probe-runs")
+            res.nontrivial.add(("relative-location", how))
+            if not gone(tracker):
+                res.fail("tracker:alive-after-last-client-died", case, dict(tracker=tracker))
+            elif left:
+                res.fail("client:leak-after-eof:relative-location", case, dict(registered_as=registered, left=[os.path.relpath(x, base) for x in left]))
+        finally:
+            if p.poll() is None:
+                p.kill()
+            shutil.rmtree(base, ignore_errors=True)
+
+
 def run(ctx):
     if ctx.replay:
         case = ctx.replay.get("case", {})
         if "world" in case:
             return _explore(ctx, [case["world"]], "replay", usage=False)
         res = Result()
+        if case.get("kind") == "relative-location-probe":
+            core.use_repo()
+            _relpath_probe(ctx, res)
+            return res
         if "usage" in case:
             core.use_repo()
             run_usage(ctx, res, case["usage"], 0)
@@ -1393,7 +1446,9 @@ def run(ctx):
     else:
         worlds += _worlds(ctx, 200, 30, 4, "main")
     res = _explore(ctx, worlds, "w")
-    return _client(ctx, res, 1200 if ctx.thorough else 50, "main", big=ctx.thorough)
+    res = _client(ctx, res, 1200 if ctx.thorough else 50, "main", big=ctx.thorough)
+    _relpath_probe(ctx, res)
+    return res
 
 
 def search(ctx, res):
